@@ -111,6 +111,9 @@ def singleSplitRaw (n : Int) (fhRaw : List Int) (wl : Option Int) : Except Err (
   | some w => if w < 1 then throw .value
   | none => pure ()
   let fh ← checkFh fhRaw
+  match wl with
+  | some w => if w + fhMax fh > n then throw .value    -- `_check_window_lengths` (repaired code)
+  | none => pure ()
   let end_ := getEnd n fh - 1
   let start := match wl with | none => 0 | some w => end_ - w
   pure [(arange start end_, fh.map (fun h => end_ + h - 1))]
